@@ -79,6 +79,22 @@ func (ci *condIndex) edges(pat string, truth bool) map[edge]bool {
 	return out
 }
 
+// deadEdges: successor edges of branches on compile-time constant conditions that are never taken
+func deadEdges(f *ssa.Function) map[edge]bool {
+	out := map[edge]bool{}
+	for _, ifi := range ifsOf(f) {
+		if cb, ok := constBool(ifi.Cond); ok {
+			b := ifi.Block()
+			if cb {
+				out[edge{b, b.Succs[1]}] = true
+			} else {
+				out[edge{b, b.Succs[0]}] = true
+			}
+		}
+	}
+	return out
+}
+
 func mergeEdges(ms ...map[edge]bool) map[edge]bool {
 	out := map[edge]bool{}
 	for _, m := range ms {
@@ -92,7 +108,7 @@ func mergeEdges(ms ...map[edge]bool) map[edge]bool {
 // require: the check `pat` (polarity passWhenTrue) rejects and cannot be bypassed, except over the pre-cut edges
 func (ci *condIndex) require(c *Ctx, rule, construct, pat string, passWhenTrue bool, spec resultSpec, bypass map[edge]bool, why string) {
 	at := ci.atoms(pat, passWhenTrue)
-	g := evalGuardCut(c.P, ci.f, at, spec, nil, bypass)
+	g := evalGuardCut(c.P, ci.f, at, spec, nil, mergeEdges(bypass, deadEdges(ci.f)))
 	c.Evals += len(ci.conds)
 	c.Check(g.OK, rule, fname(ci.f), construct, g.Why, why+": "+g.Why, g.Pos)
 }
@@ -494,7 +510,24 @@ func c10Host(c *Ctx) {
 			}
 		}
 		c.Check(starOK, rule, fname(f), "'*' is honoured only for the left-most label", "", "the wildcard test is not restricted to label index 0", f.Pos())
-		ci.require(c, rule, "labels must be equal (except a whole left-most '*')", `re:ne\(idx\(`+P+`,[^)]*\),idx\(`+H+`,[^)]*\)\)`, false, spec, ci.edges(star, true), "any differing label must make the match fail")
+		// every iteration compares the labels unless the label is the left-most '*'
+		cmpPat := `re:ne\(idx\(` + P + `,[^)]*\),idx\(` + H + `,[^)]*\)\)`
+		cmpAtoms := ci.atoms(cmpPat, false)
+		gr := evalReject(c.P, f, cmpAtoms, spec)
+		everyIter := false
+		if gr.OK {
+			for _, h := range loopHeaders(f) {
+				cut := mergeEdges(ci.edges(star, true))
+				for _, a := range cmpAtoms {
+					b := a.If.Block()
+					cut[edge{b, b.Succs[a.PassSucc]}] = true
+				}
+				body := h.Succs[0]
+				seen := reach([]*ssa.BasicBlock{body}, cut)
+				everyIter = !seen[h]
+			}
+		}
+		c.Check(gr.OK && everyIter, rule, fname(f), "labels must be equal (except a whole left-most '*')", "", "a differing label does not make the match fail on every iteration: "+gr.Why, f.Pos())
 		ci.require(c, rule, "empty pattern rejected", `re:eq\(len\(call:strings\.TrimSuffix\(pattern,const:"\.":string\)\),0x0\)`, false, spec, nil, "")
 		ci.require(c, rule, "empty host rejected", `re:eq\(len\(call:strings\.TrimSuffix\(host,const:"\.":string\)\),0x0\)`, false, spec, nil, "")
 	} else {
